@@ -134,7 +134,18 @@ def input_cycles():
             # cycles that do not pass through the variable's own type
             ("input-cycle behind a wrapper", "mutation M($w: Wrap) { m(w: $w) }\n"),
             ("input-cycle behind two wrappers", "mutation M($w2: Wrap2!) { m(w2: $w2) }\n"),
-            ("input-cycle behind a list wrapper", "mutation M($ws: [Wrap!]) { m }\n")]
+            ("input-cycle behind a list wrapper", "mutation M($ws: [Wrap!]) { m }\n"),
+            # object-literal default values on (and leading into) the cycles: the literal is finite, the schema is not
+            ("default {} on non-null self cycle", "mutation M($o: Own = {}) { m(o: $o) }\n"),
+            ("default {own: {}} on non-null self cycle", "mutation M($o: Own = {own: {}}) { m(o: $o) }\n"),
+            ("default {} on non-null pair", "mutation M($n: NN1 = {}) { m(n: $n) }\n"),
+            ("default {must: {}} on non-null pair", "mutation M($n: NN1! = {must: {}}) { m(n: $n) }\n"),
+            ("default {} on nullable cycle", "mutation M($i: RI = {}) { m(i: $i) }\n"),
+            ("default nested on nullable cycle", "mutation M($i: RI = {me: {me: {list: [{}, {other: {back: {}}}]}}}) { m(i: $i) }\n"),
+            ("default {} on a wrapper of every cycle", "mutation M($w: Wrap = {}) { m(w: $w) }\n"),
+            ("default {n: {}, o: {}} on a wrapper", "mutation M($w: Wrap = {n: {}, o: {}, r: {}, list: [{}]}) { m(w: $w) }\n"),
+            ("default on oneOf cycle", "mutation M($oo: OO = {a: {a: {b: 1}}}) { m(oo: $oo) }\n"),
+            ("default list of objects", "mutation M($ws: [Wrap!] = [{}, {n: {}}]) { m }\n")]
 
 
 def degenerate():
